@@ -1531,3 +1531,270 @@ Proof.
     rewrite restore_eq. change (s_kids (dump_node det path n sk [] [])) with sk.
     rewrite (mapM_restore Qsk). rewrite Erest. exact Hset.
 Qed.
+
+(* =================================================================== 10. the invariant survives a round trip *)
+Definition gperm (g : list cref -> list cref) : Prop :=
+  (forall l x, In x (g l) <-> In x l) /\ (forall l, NoDup l -> NoDup (g l)).
+Lemma gperm_id : gperm (fun l => l). Proof. split; [tauto|auto]. Qed.
+Lemma gperm_rev : gperm (@rev cref).
+Proof. split; [intros l x; symmetry; apply in_rev | intros l H; apply NoDup_rev; exact H]. Qed.
+
+Lemma in_refill f E k l : In (k, l) (refill f E) <-> (l = f k /\ In k (keys E)).
+Proof.
+  unfold refill, keys. rewrite in_map_iff. split.
+  - intros [[k' l'] [E1 H]]. cbn [fst] in E1. inversion E1; subst. split; [reflexivity|].
+    apply in_map_iff. exists (k, l'). auto.
+  - intros [-> H]. apply in_map_iff in H. destruct H as [[k' l'] [E1 H]]. cbn [fst] in E1. subst k'.
+    exists (k, l'). auto.
+Qed.
+
+Lemma resym g E F :
+  gperm g -> table_ok E = true -> table_ok F = true -> sym_half E F = true -> sym_half F E = true ->
+  let E1 := refill (fun i => g (look E i)) E in
+  let F1 := refill (fun o => g (canon E o)) F in
+  table_ok E1 = true /\ table_ok F1 = true /\ sym_half E1 F1 = true /\ sym_half F1 E1 = true.
+Proof.
+  intros [Gi Gn] TE TF S1 S2 E1 F1.
+  apply table_ok_spec in TE, TF. destruct TE as [NE LE], TF as [NF LF].
+  rewrite sym_half_spec in S1, S2.
+  repeat split.
+  - apply table_ok_spec. unfold E1. rewrite keys_refill. split; [exact NE|].
+    intros [k l] H. apply in_refill in H. destruct H as [-> Hk]. cbn [snd]. apply Gn.
+    unfold keys in Hk. apply in_map_iff in Hk. destruct Hk as [[k' l'] [Ek Hin]]. cbn [fst] in Ek. subst k'.
+    rewrite (look_In _ _ _ NE Hin). exact (LE _ Hin).
+  - apply table_ok_spec. unfold F1. rewrite keys_refill. split; [exact NF|].
+    intros [k l] H. apply in_refill in H. destruct H as [-> Hk]. cbn [snd]. apply Gn. apply nodup_canon. exact NE.
+  - apply sym_half_spec. intros i l o Hil Ho. unfold E1 in Hil. apply in_refill in Hil. destruct Hil as [-> Hk].
+    apply (proj1 (Gi _ _)) in Ho. unfold keys in Hk. apply in_map_iff in Hk. destruct Hk as [[k' l'] [Ek Hin]]. cbn [fst] in Ek. subst k'.
+    rewrite (look_In _ _ _ NE Hin) in Ho. destruct (S1 _ _ _ Hin Ho) as [l'' [A B]].
+    exists (g (canon E o)). split.
+    + unfold F1. rewrite assoc_refill. unfold has_key. rewrite A. reflexivity.
+    + apply Gi. apply in_canon. exists l'. auto.
+  - apply sym_half_spec. intros o l i Hol Hi. unfold F1 in Hol. apply in_refill in Hol. destruct Hol as [-> Hk].
+    apply (proj1 (Gi _ _)) in Hi. apply in_canon in Hi. destruct Hi as [l' [Hin Ho]].
+    exists (g (look E i)). split.
+    + unfold E1. rewrite assoc_refill. unfold has_key. rewrite (assoc_In _ _ _ NE Hin). reflexivity.
+    + apply Gi. rewrite (look_In _ _ _ NE Hin). exact Ho.
+Qed.
+
+Lemma refill_look E : NoDup (keys E) -> refill (look E) E = E.
+Proof.
+  intros Hn. unfold refill. rewrite <- (map_id E) at 2. apply map_ext_in. intros [k l] Hin. cbn [fst].
+  rewrite (look_In _ _ _ Hn Hin). reflexivity.
+Qed.
+
+Lemma level_ok_relevel K : level_ok K = true -> level_ok (relevel K) = true.
+Proof.
+  intros Hl. destruct (level_ok_spec _ Hl) as [[Tdi [Tdo [Tsi Tso]]] [[Sd1 Sd2] [Ss1 Ss2]]].
+  destruct (@resym (fun l => l) (din K) (dout K) gperm_id Tdi Tdo Sd1 Sd2) as [A1 [A2 [A3 A4]]].
+  destruct (@resym (@rev cref) (sinv K) (soutv K) gperm_rev Tsi Tso Ss1 Ss2) as [B1 [B2 [B3 B4]]].
+  unfold level_ok, relevel. rewrite din_put, dout_put, sinv_put, soutv_put.
+  rewrite !andb_true_iff. repeat split; assumption.
+Qed.
+
+Lemma putk_wfb fi fo gi go k : wfb (putk fi fo gi go k) = wfb k.
+Proof. rewrite !wfb_eq. reflexivity. Qed.
+
+Lemma wfb_inner : forall n, wfb n = true -> wfb (inner n) = true.
+Proof.
+  induction n as [lab kd cls fl rn ex ins outs sin sout kids start prov IH] using node_ind'.
+  intros Hw. set (n := Node lab kd cls fl rn ex ins outs sin sout kids start prov) in *.
+  destruct (wfb_parts _ Hw) as [Wk [Lk [Nk [Sk Ek]]]]. change (nkids n) with kids in *.
+  rewrite wfb_eq, inner_kids, inner_start, inner_kind. change (nkids n) with kids.
+  assert (Lab : map nlab (relevel (map inner kids)) = map nlab kids).
+  { unfold relevel, put. rewrite !map_map. apply map_ext. intros k. apply inner_lab. }
+  rewrite Lab. rewrite !andb_true_iff. repeat split.
+  - unfold relevel, put. rewrite forallb_map. apply forallb_forall. intros x Hx.
+    apply in_map_iff in Hx. destruct Hx as [k [<- Hk]]. rewrite putk_wfb.
+    rewrite Forall_forall in IH. apply IH; auto. exact (forallb_In _ _ _ Wk Hk).
+  - apply level_ok_relevel. unfold level_ok. rewrite din_inner, dout_inner, sinv_inner, soutv_inner. exact Lk.
+  - apply nodupb_s. exact Nk.
+  - apply forallb_forall. intros l Hl. apply mems_In. apply Sk. exact Hl.
+  - destruct (is_comp (nkind n)) eqn:Ec; [reflexivity|]. rewrite (Ek eq_refl). reflexivity.
+Qed.
+
+Lemma wfb_strip n : wfb (strip_root n) = wfb n.
+Proof. rewrite !wfb_eq. reflexivity. Qed.
+Lemma wfb_ref n : wfb n = true -> wfb (ref n) = true.
+Proof. intros H. unfold ref. rewrite wfb_strip. apply wfb_inner. exact H. Qed.
+Lemma own_ok_ref n : own_ok (ref n) = own_ok n.
+Proof. rewrite ref_eq. unfold own_ok. cbn [nins nouts]. rewrite !map_map. reflexivity. Qed.
+
+(* =================================================================== 11. "observationally identical" as the property words it *)
+Definition dshell (c : dchan) := (dlab c, dval c, drcv c).
+Definition sshell (c : schan) := (slab c, srcvd c).
+Definition tperm (E E' : table) : Prop :=
+  Forall2 (fun e e' => fst e = fst e' /\ Permutation (snd e) (snd e')) E E'.
+
+(* same labels / classes / nesting, values (NotData is a constructor of its own), flags, executor
+   instructions, value links, starting nodes; every INPUT consults the same connections in the
+   same order; data fan-out and signal connections are the same sets per channel.
+   A node's own connections (they live in its parent's scope) are not compared here. *)
+Fixpoint same (n n' : node) {struct n} : Prop :=
+  match n with
+  | Node lab kd cls fl rn ex ins outs sin sout kids start prov =>
+      lab = nlab n' /\ kd = nkind n' /\ cls = ncls n' /\ fl = nfailed n' /\ rn = nrunning n' /\
+      drop_live ex = nexe n' /\
+      map dshell ins = map dshell (nins n') /\ map dshell outs = map dshell (nouts n') /\
+      map sshell sin = map sshell (nsin n') /\ map sshell sout = map sshell (nsout n') /\
+      (fix all2 (ks ks' : list node) {struct ks} : Prop :=
+         match ks, ks' with
+         | [], [] => True
+         | k :: r, k' :: r' => same k k' /\ all2 r r'
+         | _, _ => False
+         end) kids (nkids n') /\
+      din (nkids n') = din kids /\
+      tperm (dout kids) (dout (nkids n')) /\ tperm (sinv kids) (sinv (nkids n')) /\
+      tperm (soutv kids) (soutv (nkids n')) /\
+      start = nstart n' /\ prov = nprov n'
+  end.
+
+Lemma same_eq n n' :
+  same n n' <->
+  (nlab n = nlab n' /\ nkind n = nkind n' /\ ncls n = ncls n' /\ nfailed n = nfailed n' /\
+   nrunning n = nrunning n' /\ drop_live (nexe n) = nexe n' /\
+   map dshell (nins n) = map dshell (nins n') /\ map dshell (nouts n) = map dshell (nouts n') /\
+   map sshell (nsin n) = map sshell (nsin n') /\ map sshell (nsout n) = map sshell (nsout n') /\
+   Forall2 same (nkids n) (nkids n') /\
+   din (nkids n') = din (nkids n) /\
+   tperm (dout (nkids n)) (dout (nkids n')) /\ tperm (sinv (nkids n)) (sinv (nkids n')) /\
+   tperm (soutv (nkids n)) (soutv (nkids n')) /\
+   nstart n = nstart n' /\ nprov n = nprov n').
+Proof.
+  destruct n as [lab kd cls fl rn ex ins outs sin sout kids start prov]. cbn [same nlab nkind ncls nfailed nrunning nexe nins nouts nsin nsout nkids nstart nprov].
+  assert (A : forall ks ks',
+             (fix all2 (ks ks' : list node) {struct ks} : Prop :=
+                match ks, ks' with
+                | [], [] => True
+                | k :: r, k' :: r' => same k k' /\ all2 r r'
+                | _, _ => False
+                end) ks ks' <-> Forall2 same ks ks').
+  { induction ks as [|k r IH]; intros [|k' r'].
+    - split; intros; constructor.
+    - split; intros H; [contradiction | inversion H].
+    - split; intros H; [contradiction | inversion H].
+    - split.
+      + intros [H1 H2]. constructor; [exact H1 | apply IH; exact H2].
+      + intros H. inversion H; subst. split; [assumption | apply IH; assumption]. }
+  rewrite A. tauto.
+Qed.
+
+Lemma tperm_refl E : tperm E E.
+Proof. unfold tperm. induction E; constructor; auto. Qed.
+Lemma tperm_trans A B C : tperm A B -> tperm B C -> tperm A C.
+Proof.
+  unfold tperm. intros H. revert C. induction H as [|a b A' B' [K1 P1] _ IH]; intros C HC; inversion HC; subst; constructor.
+  - destruct H1 as [K2 P2]. split; [congruence|]. eapply Permutation_trans; eauto.
+  - apply IH. assumption.
+Qed.
+
+Lemma same_trans : forall a b c, same a b -> same b c -> same a c.
+Proof.
+  induction a as [lab kd cls fl rn ex ins outs sin sout kids start prov IH] using node_ind'.
+  intros b c Hab Hbc. rewrite same_eq in *.
+  destruct Hab as [A1 [A2 [A3 [A4 [A5 [A6 [A7 [A8 [A9 [A10 [A11 [A12 [A13 [A14 [A15 [A16 A17]]]]]]]]]]]]]]]].
+  destruct Hbc as [B1 [B2 [B3 [B4 [B5 [B6 [B7 [B8 [B9 [B10 [B11 [B12 [B13 [B14 [B15 [B16 B17]]]]]]]]]]]]]]]].
+  cbn [nlab nkind ncls nfailed nrunning nexe nins nouts nsin nsout nkids nstart nprov] in *.
+  repeat split; try congruence.
+  - rewrite <- B6, <- A6. destruct ex; reflexivity.
+  - clear -IH A11 B11. revert IH. generalize dependent (nkids c). induction A11 as [|x y X Y Hxy _ IHF]; intros C HC IH; inversion HC; subst; constructor.
+    + inversion IH; subst. eauto.
+    + inversion IH; subst. apply IHF; auto.
+  - eapply tperm_trans; eauto.
+  - eapply tperm_trans; eauto.
+  - eapply tperm_trans; eauto.
+Qed.
+
+(* own connections and own output links of the second node are not looked at ... *)
+Lemma same_putk a b fi fo gi go : same a (putk fi fo gi go b) <-> same a b.
+Proof.
+  rewrite !same_eq. cbn [putk nlab nkind ncls nfailed nrunning nexe nins nouts nsin nsout nkids nstart nprov].
+  rewrite !map_map. cbn. tauto.
+Qed.
+
+Lemma tperm_refill_l (g : cref -> list cref) E :
+  (forall k l, In (k, l) E -> Permutation l (g k)) -> tperm E (refill g E).
+Proof.
+  unfold tperm, refill. induction E as [|[k l] r IH]; intros H; [constructor|]. cbn [map]. constructor.
+  - cbn. split; [reflexivity|]. apply H. left. reflexivity.
+  - apply IH. intros k' l' Hin. apply H. right. exact Hin.
+Qed.
+
+Lemma perm_canon E F o l :
+  table_ok E = true -> table_ok F = true -> sym_half E F = true -> sym_half F E = true ->
+  In (o, l) F -> Permutation l (canon E o).
+Proof.
+  intros TE TF S1 S2 Hin. apply table_ok_spec in TE, TF. destruct TE as [NE LE], TF as [NF LF].
+  rewrite sym_half_spec in S1, S2.
+  apply NoDup_Permutation.
+  - exact (LF _ Hin).
+  - apply nodup_canon. exact NE.
+  - intros i. rewrite in_canon. split.
+    + intros Hi. destruct (S2 _ _ _ Hin Hi) as [l' [A B]]. exists l'. split; [apply assoc_Some_In; exact A|exact B].
+    + intros [l' [Hil Ho]]. destruct (S1 _ _ _ Hil Ho) as [l'' [A B]].
+      rewrite (assoc_In _ _ _ NF Hin) in A. inversion A; subst. exact B.
+Qed.
+
+Lemma forall2_tk K f1 f2 f3 f4 :
+  (forall k, In k K -> same k (inner k)) ->
+  Forall2 same K (map (fun x => putk f1 f2 f3 f4 (inner x)) K).
+Proof.
+  induction K as [|k r IH]; intros H; [constructor|]. cbn [map]. constructor.
+  - apply same_putk. apply H. left. reflexivity.
+  - apply IH. intros x Hx. apply H. right. exact Hx.
+Qed.
+
+Lemma same_inner : forall n, wfb n = true -> same n (inner n).
+Proof.
+  induction n as [lab kd cls fl rn ex ins outs sin sout kids start prov IH] using node_ind'.
+  intros Hw. set (n := Node lab kd cls fl rn ex ins outs sin sout kids start prov) in *.
+  destruct (wfb_parts _ Hw) as [Wk [Lk _]]. change (nkids n) with kids in *.
+  destruct (level_ok_spec _ Lk) as [[Tdi [Tdo [Tsi Tso]]] [[Sd1 Sd2] [Ss1 Ss2]]].
+  destruct (level_keys _ Lk) as [Ndi [Ndo [Nsi Nso]]].
+  rewrite same_eq. rewrite inner_eq.
+  cbn [nlab nkind ncls nfailed nrunning nexe nins nouts nsin nsout nkids nstart nprov].
+  change (nkids n) with kids.
+  repeat split; try reflexivity.
+  - unfold relevel, put. rewrite map_map. apply forall2_tk.
+    intros k Hk. rewrite Forall_forall in IH. apply IH; [exact Hk|]. exact (forallb_In _ _ _ Wk Hk).
+  - unfold relevel. rewrite din_put, !din_inner. apply refill_look. exact Ndi.
+  - unfold relevel. rewrite dout_put, din_inner, dout_inner. apply tperm_refill_l.
+    intros k l Hin. exact (@perm_canon (din kids) (dout kids) k l Tdi Tdo Sd1 Sd2 Hin).
+  - unfold relevel. rewrite sinv_put, !sinv_inner. apply tperm_refill_l.
+    intros k l Hin. rewrite (look_In _ _ _ Nsi Hin). apply Permutation_rev.
+  - unfold relevel. rewrite soutv_put, sinv_inner, soutv_inner. apply tperm_refill_l.
+    intros k l Hin. eapply Permutation_trans;
+      [exact (@perm_canon (sinv kids) (soutv kids) k l Tsi Tso Ss1 Ss2 Hin) | apply Permutation_rev].
+Qed.
+
+Lemma same_strip a b : same a b -> same (strip_root a) (strip_root b).
+Proof.
+  rewrite !same_eq. unfold strip_root.
+  cbn [nlab nkind ncls nfailed nrunning nexe nins nouts nsin nsout nkids nstart nprov].
+  intros [A1 [A2 [A3 [A4 [A5 [A6 [A7 [A8 [A9 [A10 R]]]]]]]]]].
+  repeat split; try tauto.
+  - rewrite !map_map. unfold dshell in *. cbn.
+    revert A7. generalize (nins a) (nins b). induction l as [|x r IH]; intros [|y t] H; try discriminate; [reflexivity|].
+    cbn in *. inversion H. f_equal; auto.
+  - rewrite !map_map. unfold dshell in *. cbn.
+    revert A8. generalize (nouts a) (nouts b). induction l as [|x r IH]; intros [|y t] H; try discriminate; [reflexivity|].
+    cbn in *. inversion H. f_equal; auto. congruence.
+  - rewrite !map_map. exact A9.
+  - rewrite !map_map. exact A10.
+Qed.
+
+Theorem same_ref n : wfb n = true -> same (strip_root n) (ref n).
+Proof. intros H. unfold ref. apply same_strip. apply same_inner. exact H. Qed.
+
+Definition no_own_conns (n : node) : Prop :=
+  (forall c, In c (nins n) -> dcon c = []) /\ (forall c, In c (nouts n) -> dcon c = [] /\ drcv c = RNone) /\
+  (forall c, In c (nsin n) -> scon c = []) /\ (forall c, In c (nsout n) -> scon c = []).
+Lemma ref_no_own n : no_own_conns (ref n).
+Proof.
+  rewrite ref_eq. unfold no_own_conns. cbn [nins nouts nsin nsout].
+  repeat split; intros c H; apply in_map_iff in H; destruct H as [c0 [<- _]]; reflexivity.
+Qed.
+Lemma strip_idem n : strip_root (strip_root n) = strip_root n.
+Proof. unfold strip_root. cbn. rewrite !map_map. reflexivity. Qed.
+Lemma strip_ref n : strip_root (ref n) = ref n.
+Proof. unfold ref. apply strip_idem. Qed.
